@@ -1104,7 +1104,19 @@ fn silent_replay(sc: &mut Sc, rng: &mut Rng, cls: &[Cl]) {
         sc.op(&format!("cli-upd {} 250000", cls[1].h));
         if let (_, Some(k)) = sc.opd(&format!("cli-upd {} 250000", c.h)) {
             let d = sc.hist[k].bytes.clone();
+            if rng.chance(1, 2) {
+                // … overtaken on the way by the payload sent right after it: both are genuine, fresh, inside the window
+                if let (_, Some(k2)) = sc.opd(&format!("cli-pay {} {}", c.h, hex(&rng.payload(4)))) {
+                    let p = sc.hist[k2].bytes.clone();
+                    sc.op("note expect-payload");
+                    sc.op(&format!("srv-rx 0 {} {}", c.addr, hex(&p)));
+                    rec.push(p);
+                }
+            }
             sc.op(&format!("srv-rx 0 {} {}", c.addr, hex(&d)));
+            rec.push(d.clone());
+            // (the late one is the attacker's favourite from now on)
+            rec.push(d.clone());
             rec.push(d);
         }
     }
@@ -3085,7 +3097,7 @@ fn script_wire(rng: &mut Rng, tier: Tier, f: &mut dyn FnMut(&str) -> String) {
 // profile 0: nc-regress — one fixed op list per repaired defect (deterministic, run on every check)
 // =============================================================================================
 
-const REGRESS_CASES: usize = 53;
+const REGRESS_CASES: usize = 56;
 
 fn regress_script(case: usize, f: &mut dyn FnMut(&str) -> String) {
     let mut rng = Rng::new(0xD1CE + case as u64);
@@ -4771,6 +4783,92 @@ fn regress_script(case: usize, f: &mut dyn FnMut(&str) -> String) {
             sc.op("srv-q 0 41");
             sc.op("srv-dump 0");
         }
+        // out-of-order arrival, then replays of the late one. 53: the client's keep-alive is overtaken by its payload; the
+        // client dies; the late keep-alive is replayed every 2 s: the server's 5 s timeout fires all the same.
+        // 54: the same towards the client (server keep-alive overtaken by a server payload, server silent, replays every
+        // 400 ms, client timeout 2 s)
+        53 => {
+            fast_connect(&mut sc, &cls[0]);
+            sc.op("srv-upd 0 250000");
+            if let (_, Some(k)) = sc.opd("cli-upd 0 250000") {
+                let ka = sc.hist[k].bytes.clone();
+                if let (_, Some(k)) = sc.opd("cli-pay 0 6f7665727461") {
+                    let p = sc.hist[k].bytes.clone();
+                    sc.op("note expect-payload");
+                    sc.op(&format!("srv-rx 0 {} {}", cls[0].addr, hex(&p)));
+                }
+                sc.op(&format!("srv-rx 0 {} {}", cls[0].addr, hex(&ka))); // late, first time, inside the window
+                sc.op("srv-dump 0");
+                for _ in 0..4 {
+                    sc.op("srv-upd 0 2000000");
+                    hostile_srv(&mut sc, "hostile", &cls[0].addr.clone(), &ka);
+                    sc.op("srv-dump 0");
+                    let out = sc.op("srv-updc 0 40");
+                    sc.op("srv-q 0 40");
+                    if out.starts_with("disconnected") {
+                        break;
+                    }
+                }
+            }
+        }
+        54 => {
+            let mut spec = base_spec(rng, 77, proto, key, 5, &hosts);
+            spec.expire = 65;
+            spec.seal_expire = 65;
+            spec.timeout = 2;
+            if let Some(c) = new_client(&mut sc, 5, &a4(10, 9, 0, 95, 4995), &spec, 5_000_000) {
+                fast_connect(&mut sc, &c);
+                sc.op("srv-upd 0 250000");
+                sc.op(&format!("cli-upd {} 250000", c.h));
+                if let (_, Some(k)) = sc.opd("srv-updc 0 77") {
+                    let ka = sc.hist[k].bytes.clone();
+                    if let (_, Some(k)) = sc.opd("srv-pay 0 77 6f766572") {
+                        let p = sc.hist[k].bytes.clone();
+                        sc.op("note expect-payload");
+                        sc.op(&format!("cli-rx {} {}", c.h, hex(&p)));
+                    }
+                    sc.op(&format!("cli-rx {} {}", c.h, hex(&ka)));
+                    sc.op(&format!("cli-q {}", c.h));
+                    for _ in 0..7 {
+                        sc.op(&format!("cli-upd {} 400000", c.h));
+                        hostile_cli(&mut sc, "hostile", c.h, &ka);
+                        sc.op(&format!("cli-q {}", c.h));
+                    }
+                    sc.op(&format!("cli-dump {}", c.h));
+                }
+            }
+        }
+        // client id 78 is connected from A and has been silent for 6 s (timeout 15 s); a request with another token of id
+        // 78 arrives from B: nothing — the session stays in the table until an event says otherwise
+        55 => {
+            let mut two: Vec<Cl> = vec![];
+            for j in 0..2u8 {
+                let mut spec = base_spec(rng, 78, proto, key, 5, &hosts);
+                spec.expire = 65;
+                spec.seal_expire = 65;
+                spec.timeout = 15;
+                spec.ud = vec![0xc0 + j; 256];
+                if let Some(c) = new_client(&mut sc, 5 + j as u64, &a4(10, 9, 7, 1 + j, 4971 + j as u16), &spec, 5_000_000) {
+                    two.push(c);
+                }
+            }
+            if two.len() == 2 && fast_connect(&mut sc, &two[0]) {
+                sc.op("srv-upd 0 6000000");
+                sc.op("srv-dump 0");
+                if let (_, Some(k)) = sc.opd("cli-upd 6 0") {
+                    let rq = sc.hist[k].bytes.clone();
+                    if let (_, Some(k)) = sc.opd(&format!("srv-rx 0 {} {}", two[1].addr, hex(&rq))) {
+                        let ch = sc.hist[k].bytes.clone();
+                        answer_challenge(&mut sc, 6, &two[1].addr.clone(), &ch, None);
+                    }
+                }
+                sc.op("srv-dump 0");
+                sc.op("srv-q 0 78");
+                sc.op("srv-pay 0 78 6f6b");
+                sc.op("srv-updc 0 78");
+                sc.op("srv-dump 0");
+            }
+        }
         // sequence 2^64-1 (the window's EMPTY sentinel) from the owner of a session
         _ => {
             fast_connect(&mut sc, &cls[0]);
@@ -4853,7 +4951,7 @@ fn regress_ops(case: usize) -> Vec<String> {
 /// To refresh after editing a script: `NC_FIXED_COUNTS=1 harness run --props C10 --profiles nc-regress,…` prints them.
 fn fixed_expected(tag: &str, case: usize) -> Option<usize> {
     const REGRESS: &[usize] = &[
-        30, 30, 30, 12, 16, 17, 24, 23, 30, 19, 21, 35, 33, 49, 551, 60, 85, 35, 50, 59, 69, 56, 43, 34, 26, 148, 104, 41, 49, 26, 44, 63, 36, 31, 38, 116, 26, 34, 70, 52, 541, 31, 42, 33, 30, 53, 52, 54, 103, 92, 63, 125, 32,
+        30, 30, 30, 12, 16, 17, 24, 23, 30, 19, 21, 35, 33, 49, 551, 60, 85, 35, 50, 59, 69, 56, 43, 34, 26, 148, 104, 41, 49, 26, 44, 63, 36, 31, 38, 116, 26, 34, 70, 52, 541, 31, 42, 33, 30, 53, 52, 54, 103, 92, 63, 125, 32, 45, 68, 29,
     ];
     match tag {
         "regress" => REGRESS.get(case).copied(),
